@@ -401,6 +401,10 @@ func readX(wire []byte) string {
 		f, err := fr.ReadFrame()
 		if err != nil {
 			if err.Error() == "EOF" {
+				// the stream ended on a frame boundary; inside a HEADERS/CONTINUATION sequence that is still incomplete
+				if openHeaderBlock(wire) {
+					out = append(out, "E:short")
+				}
 				break
 			}
 			if err.Error() == "unexpected EOF" {
@@ -418,6 +422,22 @@ func readX(wire []byte) string {
 		out = append(out, sumX(f))
 	}
 	return orDash(strings.Join(out, ","))
+}
+
+// openHeaderBlock reports whether wire (a whole number of frames) ends before the END_HEADERS of a header block.
+func openHeaderBlock(wire []byte) bool {
+	open := false
+	for len(wire) >= 9 {
+		l := int(wire[0])<<16 | int(wire[1])<<8 | int(wire[2])
+		if len(wire) < 9+l {
+			return false
+		}
+		if wire[3] == 1 || wire[3] == 9 {
+			open = wire[4]&4 == 0
+		}
+		wire = wire[9+l:]
+	}
+	return open
 }
 
 // wholeFrames reports whether wire is a whole number of frames.
@@ -465,7 +485,7 @@ func genReqFields(r *hx.Rng, pool *[]hItem, response bool) []hItem {
 }
 
 func runFrameSeqs(c *hx.Ctx) {
-	m := c.N(400, 9000)
+	m := c.N(400, 2500)
 	for k := 0; k < m; k++ {
 		r := c.Rng
 		dir := "x2m"
@@ -507,7 +527,7 @@ func runFrameSeqs(c *hx.Ctx) {
 					}
 					c.Count("frames.headers-priority")
 				}
-				if r.Intn(25) == 0 { // a header block beyond two frames
+				if r.Intn(60) == 0 { // a header block beyond two frames
 					f.fields = append(f.fields, hItem{kind: 'f', name: "x-big", val: string(genTok(r, 40000))})
 					f.nfrag = 3 + r.Intn(2)
 					c.Count("frames.big-header-block")
@@ -515,12 +535,12 @@ func runFrameSeqs(c *hx.Ctx) {
 				specs = append(specs, f)
 			case x < 65:
 				f := fSpec{kind: 'D', sid: 1 + 2*uint32(r.Intn(4)), es: r.Intn(4) == 0, pad: -1}
-				f.data = r.Bytes([]int{0, 1, 5, 100, 1000, 16384}[r.Intn(6)])
+				f.data = r.Bytes([]int{0, 1, 5, 100, 100, 100, 1000, 1000, 100, 5, 16384, 1, 300, 17, 64, 255}[r.Intn(16)])
 				if dir == "x2m" && r.Intn(3) == 0 {
 					f.pad = []int{0, 1, 7, 255}[r.Intn(4)]
 					c.Count("frames.data-padded")
 				}
-				if dir == "m2x" && r.Intn(6) == 0 {
+				if dir == "m2x" && r.Intn(24) == 0 {
 					f.data = r.Bytes(16384*2 + r.Intn(100)) // MFramer.writeData cuts it into 16384-byte frames
 				}
 				specs = append(specs, f)
